@@ -412,6 +412,7 @@ class Contract:
         v = Contract.__new__(Contract)
         v.__dict__.update(self.__dict__)
         v.loops = {}
+        v._is_inline_view = True
         return v
 
 
